@@ -164,13 +164,20 @@ func VerifC15_IstioDestinationRule() {
 // Provider level: store on first touch, apply from the original, restore exactly
 // ---------------------------------------------------------------------------------------------------------------
 
-// a well-behaved plugin: writes a spec field, a label and an annotation that depend on the step only
+// a well-behaved plugin: writes spec fields, labels and annotations that depend on the step only; which keys it
+// writes depends on the kind of step, so a key left over from an earlier step shows
 const c15Plugin = `
 local data = obj.data
 if not data.labels then data.labels = {} end
 if not data.annotations then data.annotations = {} end
 data.labels["plugin/canary-weight"] = tostring(obj.canaryWeight)
 data.annotations["plugin/canary-service"] = obj.canaryService
+if obj.canaryWeight ~= -1 then
+    data.annotations["plugin/weighted"] = tostring(obj.canaryWeight)
+    data.spec.weighted = true
+else
+    data.labels["plugin/unweighted"] = "true"
+end
 data.spec.canaryWeight = obj.canaryWeight
 data.spec.backends[1].weight = obj.stableWeight
 return data
@@ -360,6 +367,9 @@ func VerifC05_CustomFinaliseRestoresEveryRef() {
 	}
 	verifrt.Cover("C05.custom.done")
 }
+
+// C07: applying the same step again reaches a fixed point (EnsureRoutes reports done within three calls, c15Ensure).
+func VerifC07_CustomProviderReachesFixedPoint() { VerifC15_TwoRefsRestore() }
 
 // C03: the share the built-in Istio script writes equals the step's value (same obligation as C15's).
 func VerifC03_IstioStepShare() { VerifC15_IstioVirtualServiceSplit() }
